@@ -70,7 +70,7 @@ def dense_per_sample(op, kind, nsamp):
     return blocks
 
 
-def one_case(ctx: Ctx, stream: str, i: int) -> None:
+def one_case(ctx: Ctx, stream: str, i: int, forced=None) -> None:
     from furax.landscapes import StokesPyTree
     from furax.operators.hwp import HWPOperator
     from furax.operators.polarizers import LinearPolarizerOperator
@@ -79,6 +79,8 @@ def one_case(ctx: Ctx, stream: str, i: int) -> None:
     rng = ctx.rng(stream, i)
     kind = rng.choice(KINDS)
     shape = rng.choice([(2,), (3,), (2, 2), (1,), (2, 3), (3, 2)])
+    if forced is not None:
+        kind, shape = forced[0], forced[1]
     n = int(np.prod(shape))
     cls = StokesPyTree.class_for(kind)
     st = cls.structure_for(shape, jnp.float32)
@@ -90,11 +92,15 @@ def one_case(ctx: Ctx, stream: str, i: int) -> None:
         if len(shape) == 2:
             choices += [(shape[0], 1), (1, shape[1]), (shape[0], 1)]
         ash = rng.choice(choices)
+        if forced is not None:
+            ash = forced[2]
+            # pairwise different angles: an array laid along the wrong axis cannot go unnoticed
+            return (np.arange(1, int(np.prod(ash)) + 1, dtype=np.float32) * 0.37 - 0.8).reshape(ash)
         vals = [rng.choice([0.0, 0.3, -0.7, 1.1, 2.5, -4.0, 7.3, 0.785398, 1.570796, -12.5, 100.25])
                 for _ in range(int(np.prod(ash)))]
         return np.asarray(vals, dtype=np.float32).reshape(ash)
     a1, a2 = angles(), angles()
-    if rng.random() < 0.3:
+    if forced is None and rng.random() < 0.3:
         # rotations whose COMBINATION is special: the angles add up (or differ) to a multiple of pi/4 in every element —
         # R(pi/2) = diag(1,-1,-1,1) and R(pi) = I are where sin or cos of the doubled angle vanishes
         target = rng.choice([0.0, np.pi / 2, np.pi, -np.pi / 2, 3 * np.pi / 2, 2 * np.pi, np.pi / 4, -np.pi])
@@ -108,6 +114,8 @@ def one_case(ctx: Ctx, stream: str, i: int) -> None:
     x = cls(*comps)
     # how the caller hands the angles over: a JAX array, a (mutable) NumPy array, or Python / NumPy scalars
     given = rng.choice(['jax', 'jax', 'numpy', 'numpy', 'scalar'])
+    if forced is not None and given == 'scalar':
+        given = 'jax'
     if given == 'scalar':
         a1, a2 = a1.ravel()[:1].reshape(()), a2.ravel()[:1].reshape(())
     a1_orig, a2_orig = a1.copy(), a2.copy()
@@ -364,7 +372,16 @@ def dtype_case(ctx: Ctx, stream: str, i: int) -> None:
     ctx.count('dtype:' + cfg['data_dtype'])
 
 
+SQUARE_FORMS = [(k, (n, n), a) for k in ('QU', 'IQU', 'IQUV') for n in (2, 3) for a in ((n,), (n, 1), (1, n), (n, n), (1,))] + \
+               [(k, (2, 3), a) for k in ('QU', 'IQU') for a in ((3,), (2, 1), (1, 3))]
+
+
 def run(ctx: Ctx) -> None:
+    for i, form in enumerate(SQUARE_FORMS):
+        if ctx.want('square', i):
+            # square sample shapes with every angle shape that broadcasts to them (pairwise different angles): an
+            # (n,)-array of angles runs along the LAST axis
+            one_case(ctx, 'square', i, forced=form)
     for i in range(40 if ctx.tier == 'quick' else 600):
         if ctx.want('dtype', i):
             dtype_case(ctx, 'dtype', i)
